@@ -531,14 +531,22 @@ def run(chk: lib.Check):
         chk.note_case((spec["path"].name, seed), nontrivial=bool(out.ops))
         if out.problems:
             key = None
-            feats = features_of(out)
-            # (a) is it one of the two recorded writer defects?  re-run with that kind of string neutralised
-            for ft in sorted(feats) + ([("both")] if len(feats) == 2 else []):
-                neutral = frozenset(feats) if ft == "both" else frozenset({ft})
-                again = run_history(spec, seed, neutral, frozenset(), tier=chk.tier, want_corr=False, directed=directed)
-                if not again.problems:
-                    key = KNOWN["cdata" if ft == "both" else ft]
+            # (a) is it explained by the two recorded writer defects?  neutralise the offending kind of string and
+            #     re-run; a history stops at its first failing save, so later rounds may add the other kind
+            neutral: set[str] = set()
+            cur = out
+            for _ in range(3):
+                feats = features_of(cur) - neutral
+                if not cur.problems or not feats:
                     break
+                neutral |= feats
+                cur = run_history(spec, seed, frozenset(neutral), frozenset(), tier=chk.tier, want_corr=False, directed=directed)
+            if neutral and not cur.problems:
+                for ft in sorted(neutral):
+                    chk.violation(KNOWN[ft], f"{spec['path'].name} seed {seed}: {out.problems[0][:400]}",
+                                  {"model": spec["path"].name, "seed": seed, "problems": out.problems,
+                                   "ops": [list(e) if isinstance(e, tuple) else e for e in out.ops]})
+                continue
             # (b) an operation the API refused may have left partial state (other properties' subject)
             if key is None and out.rejected:
                 again = run_history(spec, seed, frozenset(), frozenset(n for n, _, _ in out.rejected), tier=chk.tier, want_corr=False, directed=directed)
